@@ -93,6 +93,11 @@ func failingContext(p *Program, at ssa.Instruction, depth int) bool {
 			if prm, ok := v.(*ssa.Parameter); ok && depth < 2 && paramNonNilAtAllCalls(p, fn, prm) {
 				continue
 			}
+			// path sensitive: `at` sits under a test that found an error non-nil, and from there on every
+			// way out returns a non-nil error (`if err != nil { sf.abort() }; return err`)
+			if underNonNilTestAllFail(at) {
+				continue
+			}
 			return false
 		}
 		return n > 0
@@ -101,6 +106,12 @@ func failingContext(p *Program, at ssa.Instruction, depth int) bool {
 		return false
 	}
 	if deferredOnError(fn, at) {
+		return true
+	}
+	if deferredOnErrorParam(p, fn, at) {
+		return true
+	}
+	if deferredUnlessCommitted(p, fn, at) {
 		return true
 	}
 	sites := callSitesOf(p, fn)
@@ -1059,4 +1070,176 @@ func r7dNoRecovery(c *RuleCtx) {
 		}
 	}
 	c.add(statusOf(n >= 4), "no-recovery/sites", "-", "tested vector-engine calls on the build / merge path are found (pinned tree: 10)", fmt.Sprintf("found %d", n), props, nil)
+}
+
+// underNonNilTestAllFail: `at` lies in the region a dominating test `x != nil` of an error opens, and no
+// return reachable from there can report success while x holds that error.
+func underNonNilTestAllFail(at ssa.Instruction) bool {
+	for b := at.Block(); b != nil; b = b.Idom() {
+		pb := b.Idom()
+		if pb == nil {
+			break
+		}
+		iff, ok := pb.Instrs[len(pb.Instrs)-1].(*ssa.If)
+		if !ok || len(pb.Succs) != 2 || len(b.Preds) != 1 || b.Preds[0] != pb {
+			continue
+		}
+		x, nilWhen, ok := errNilTest(iff.Cond)
+		if !ok {
+			continue
+		}
+		onNonNil := (pb.Succs[0] == b) != nilWhen
+		if !onNonNil {
+			continue
+		}
+		if maySucceedAfterError(b, pb, x) == nil {
+			return true
+		}
+	}
+	return false
+}
+
+// deferredOnErrorParam: fn is a routine of the shape `func (o *T) abortOnError(err *error) { if *err != nil
+// { ... at ... } }` that is only ever deferred with the address of the caller's error variable, and every
+// caller returns that variable (or nil where it is known nil) at every exit after the defer: `at` runs
+// exactly when an error is being returned.
+func deferredOnErrorParam(p *Program, fn *ssa.Function, at ssa.Instruction) bool {
+	if fn.Parent() != nil || len(fn.Blocks) == 0 {
+		return false
+	}
+	entry := fn.Blocks[0]
+	iff, ok := entry.Instrs[len(entry.Instrs)-1].(*ssa.If)
+	if !ok || len(entry.Succs) != 2 {
+		return false
+	}
+	x, nilWhen, ok := errNilTest(iff.Cond)
+	if !ok {
+		return false
+	}
+	u, ok := x.(*ssa.UnOp)
+	if !ok || u.Op != token.MUL {
+		return false
+	}
+	gi := -1
+	for i, q := range fn.Params {
+		if u.X == ssa.Value(q) && readOnlyPtrParam(q) {
+			gi = i
+		}
+	}
+	if gi < 0 {
+		return false
+	}
+	nonNilSucc := entry.Succs[0]
+	if nilWhen {
+		nonNilSucc = entry.Succs[1]
+	}
+	if len(nonNilSucc.Preds) != 1 || !(nonNilSucc == at.Block() || nonNilSucc.Dominates(at.Block())) {
+		return false
+	}
+	sites := p.callersOf(fn)
+	if len(sites) == 0 {
+		return false
+	}
+	for _, cs := range sites {
+		d, ok := cs.(*ssa.Defer)
+		if !ok || gi >= len(d.Call.Args) {
+			return false
+		}
+		par := d.Parent()
+		cell := cellOf(d.Call.Args[gi])
+		if cell == nil || cell.Parent() != par {
+			return false
+		}
+		idx := errorResultIndex(par.Signature)
+		if idx < 0 {
+			return false
+		}
+		for _, ret := range returnsOf(par) {
+			if !(d.Block() == ret.Block() || d.Block().Dominates(ret.Block())) {
+				continue // before the defer statement is registered
+			}
+			if u, ok := ret.Results[idx].(*ssa.UnOp); ok && u.Op == token.MUL && u.X == ssa.Value(cell) {
+				continue
+			}
+			v := returnedValueRaw(ret, idx)
+			if u, ok := v.(*ssa.UnOp); ok && u.Op == token.MUL && u.X == ssa.Value(cell) {
+				continue
+			}
+			if isNilConst(v) && cellNilnessAt(cell, ret.Block()) == isNil {
+				continue
+			}
+			return false
+		}
+	}
+	return true
+}
+
+// deferredUnlessCommitted: fn is a routine that is only ever deferred, whose first test is on a bool field
+// of its receiver, with `at` on the side where the field is not set; and that field is set (to true,
+// nowhere to anything else) only immediately before a `return nil` of a function with an error result:
+// `at` runs unless the committing step succeeded. (That a caller reports success only after that step
+// is R6's business.)
+func deferredUnlessCommitted(p *Program, fn *ssa.Function, at ssa.Instruction) bool {
+	if fn.Parent() != nil || len(fn.Blocks) == 0 || len(fn.Params) == 0 {
+		return false
+	}
+	entry := fn.Blocks[0]
+	iff, ok := entry.Instrs[len(entry.Instrs)-1].(*ssa.If)
+	if !ok || len(entry.Succs) != 2 {
+		return false
+	}
+	cond, neg := iff.Cond, false
+	if u, isU := cond.(*ssa.UnOp); isU && u.Op == token.NOT {
+		cond, neg = u.X, true
+	}
+	u, isU := cond.(*ssa.UnOp)
+	if !isU || u.Op != token.MUL || !isBoolType(u) {
+		return false
+	}
+	fa, isFA := u.X.(*ssa.FieldAddr)
+	if !isFA || fa.X != ssa.Value(fn.Params[0]) {
+		return false
+	}
+	unset := entry.Succs[1]
+	if neg {
+		unset = entry.Succs[0]
+	}
+	if len(unset.Preds) != 1 || !(unset == at.Block() || unset.Dominates(at.Block())) {
+		return false
+	}
+	sites := p.callersOf(fn)
+	if len(sites) == 0 {
+		return false
+	}
+	for _, cs := range sites {
+		if _, isDefer := cs.(*ssa.Defer); !isDefer {
+			return false
+		}
+	}
+	st := derefType(fa.X.Type())
+	nStores := 0
+	okAll := true
+	for _, f := range p.ZapFuncs {
+		eachInstr(f, func(b *ssa.BasicBlock, in ssa.Instruction) {
+			s, ok := in.(*ssa.Store)
+			if !ok {
+				return
+			}
+			fa2, ok := s.Addr.(*ssa.FieldAddr)
+			if !ok || fa2.Field != fa.Field || !types.Identical(derefType(fa2.X.Type()), st) {
+				return
+			}
+			nStores++
+			k, isK := constBool(s.Val)
+			ret, isRet := b.Instrs[len(b.Instrs)-1].(*ssa.Return)
+			if !isK || !k || !isRet {
+				okAll = false
+				return
+			}
+			if _, ns := errorOfReturn(ret); ns != isNil {
+				okAll = false
+			}
+		})
+	}
+	return okAll && nStores > 0
 }
